@@ -17,6 +17,10 @@ BUILTIN = {
     'std::option::Option': ('', [('Some', 'tuple', 1), ('None', 'unit', 0)]),
     'std::result::Result': ('', [('Ok', 'tuple', 1), ('Err', 'tuple', 1)]),
     'std::cmp::Ordering': ('std::cmp::Ordering::', [('Less', 'unit', 0), ('Equal', 'unit', 0), ('Greater', 'unit', 0)]),
+    'crossbeam_channel::TrySendError': ('crossbeam_channel::TrySendError::', [('Full', 'tuple', 1), ('Disconnected', 'tuple', 1)]),
+    'crossbeam_channel::TryRecvError': ('crossbeam_channel::TryRecvError::', [('Empty', 'unit', 0), ('Disconnected', 'unit', 0)]),
+    'std::sync::mpsc::TryRecvError': ('std::sync::mpsc::TryRecvError::', [('Empty', 'unit', 0), ('Disconnected', 'unit', 0)]),
+    'std::sync::mpsc::TrySendError': ('std::sync::mpsc::TrySendError::', [('Full', 'tuple', 1), ('Disconnected', 'tuple', 1)]),
     'std::collections::hash_map::Entry': ('std::collections::hash_map::Entry::', [('Occupied', 'tuple', 1), ('Vacant', 'tuple', 1)]),
     'std::collections::btree_map::Entry': ('std::collections::btree_map::Entry::', [('Occupied', 'tuple', 1), ('Vacant', 'tuple', 1)]),
 }
@@ -106,13 +110,35 @@ def whole(pat, ty):
         return whole(pat['p'], ty)
     if k == 'POr':
         out = set()
+        inner = {}
         for x in pat['pats']:
             w = whole(x, ty)
             if w is None:
+                x2 = x
+                while x2.get('k') in ('PRef', 'PBox', 'PDeref'):
+                    x2 = x2['p']
+                if x2.get('k') == 'PTupleStruct' and len(x2.get('pats', [])) == 1 and H.res_path(x2['res']).split('::')[-1] in names:
+                    inner.setdefault(H.res_path(x2['res']).split('::')[-1], []).append(x2['pats'][0])
+                    continue
                 return None
             if w == 'ALL':
                 return 'ALL'
             out |= w
+        for nm, subs in inner.items():
+            # `V(A(_)) | V(B(_))` with A, B all the variants of the payload's type is `V(_)`
+            sen = variant_of_pat(subs[0])
+            info2 = variants_of(sen[0]) if sen else None
+            if info2 is None:
+                return None
+            got = set()
+            for sp in subs:
+                w2 = whole(sp, sen[0])
+                if w2 is None:
+                    return None
+                got |= (set(v[0] for v in info2[1]) if w2 == 'ALL' else w2)
+            if got != set(v[0] for v in info2[1]):
+                return None
+            out.add(nm)
         return out
     if k in ('PTupleStruct', 'PStruct', 'PPath'):
         nm = H.res_path(pat['res']).split('::')[-1]
